@@ -255,6 +255,20 @@ int main(int argc, char **argv) {
       {"2x1x1-periodic-xyz", 2, 1, 1, true, true, true, 2},
       {"2x2x1-periodic-xyz", 2, 2, 1, true, true, true, 1},
   };
+  if (!A.get("dump-params").empty()) {
+    const std::string d = A.get("dump-params");
+    for (const Config &c : cfgs) {
+      const std::string sub = d + "/rhd-" + c.name;
+      mkdir(sub.c_str(), 0700);
+      FILE *f = fopen((sub + "/params.yml").c_str(), "w");
+      fputs(param_text(c).c_str(), f);
+      fclose(f);
+      f = fopen((sub + "/blocks.yml").c_str(), "w");
+      fputs(blocks_text, f);
+      fclose(f);
+    }
+    return 0;
+  }
   std::vector< Job > jobs;
   for (const Config &c : cfgs) {
     jobs.push_back({c, 2, 1, 1});
